@@ -219,10 +219,18 @@ impl Prop for C08P {
         for (c, r) in super::hugezst::shapes() {
             v.push(format!("hugezst {}x{}", c, r));
         }
+        for (c, r) in super::hugezst::mid_shapes(tier) {
+            v.push(format!("midsize {}x{}", c, r));
+        }
         v
     }
     fn run_unit(&self, unit: &str, ctx: &mut Ctx) {
         let p: Vec<&str> = unit.split(' ').collect();
+        if p[0] == "midsize" {
+            let (c, r) = super::hugezst::parse_shape(p[1]);
+            run_mid(c, r, ctx);
+            return;
+        }
         if p[0] == "hugezst" {
             let (c, r) = super::hugezst::parse_shape(p[1]);
             run_huge_zst(c, r, ctx);
@@ -240,6 +248,7 @@ impl Prop for C08P {
          is executed on a fresh real iterator; len(), size_hint() and num_cols() are checked after every call; every proper prefix is additionally closed with each of count, last, fold, rfold, for_each, rev-then-forward. \
          Every result must equal the ideal VecDeque of row slices compared by ADDRESS and length; for rows_mut every yielded slice is written through and the array must show exactly those writes (disjointness, write-through). \
          Arrays of () with close to usize::MAX cells (shapes usize::MAX x 1, 1 x usize::MAX, MAX/k x k, 2^32 x (2^32-1), ...) and their windows: rows() / rows_mut() must report exact len()/size_hint(), yield rows of the window's width and follow the ideal sequence by count for every sequence of up to three calls of next / next_back / nth(0..=2) / nth_back(0..=2), and - when at most four rows are left - jumps by huge n, count and last. \
+         Arrays of ordinary cells whose dimensions cross 256 (thorough: 65536; sizes at which a narrowed integer would truncate and library algorithms change strategy), and strided windows of them: the same short sequences with jumps by 254..257, 65534..65537, len-2..len+1 and huge n, every yielded row compared by ADDRESS and length. \
          states = distinct (subject, front, back) cursor positions of the ideal sequence reached; transitions = iterator calls; traces_validated_against_impl = sequences executed on the real iterator."
             .into()
     }
@@ -377,5 +386,62 @@ fn run_subject(kind: &str, c: usize, r: usize, mutable: bool, ctx: &mut Ctx) {
                 }
             },
         );
+    }
+}
+
+/// rows() / rows_mut() of arrays whose dimensions cross 256 / 65536 and of strided windows of them: short call
+/// sequences with jumps around those sizes, items compared by address (ideal position tracked by hugezst::run_indexed).
+fn run_mid(c: usize, r: usize, ctx: &mut Ctx) {
+    use super::hugezst::{enc, mid_sequences, run_indexed};
+    let mut wins: Vec<((usize, usize), (usize, usize))> = vec![((0, 0), (c, r))];
+    if c > 1 {
+        wins.push(((1, 0), (c, r)));
+        wins.push(((0, 0), (c - 1, r)));
+    }
+    if r > 2 {
+        wins.push(((0, 1), (c, r - 1)));
+    }
+    for (s, e) in wins {
+        let (wc, wr) = (e.0 - s.0, e.1 - s.1);
+        for seq in mid_sequences(wr, &[c, wc]) {
+            for kind in 0..4u8 {
+                if kind < 2 && (s, e) != ((0, 0), (c, r)) {
+                    continue;
+                }
+                let name = ["TooDee::rows()", "TooDee::rows_mut()", "view(..).rows()", "view_mut(..).rows_mut()"][kind as usize];
+                ctx.case(
+                    || format!("TooDee<u32> {}x{} window {:?}-{:?} {}: {}", c, r, s, e, name, enc(&seq)),
+                    |cs| {
+                        cs.nontrivial((c, r, s, e, kind, &seq));
+                        cs.outcome("mid-size");
+                        cs.transitions = seq.len() as u64;
+                        cs.traces = 1;
+                        let mut t = new_root(c, r);
+                        let base = t.data().as_ptr() as usize;
+                        let what = format!("{} of the {}x{} window", name, wc, wr);
+                        let ok = |addr: usize, len: usize, idx: usize| {
+                            let exp = base + ((s.1 + idx) * c + s.0) * 4;
+                            if addr == exp && len == wc {
+                                None
+                            } else {
+                                Some(format!("row #{} of the window expected at {:#x} with {} cells, got {:#x} with {}", idx, exp, wc, addr, len))
+                            }
+                        };
+                        match kind {
+                            0 => run_indexed(t.rows(), wr, &seq, |x, i| ok(x.as_ptr() as usize, x.len(), i), true, &what, cs),
+                            1 => run_indexed(t.rows_mut(), wr, &seq, |x, i| ok(x.as_ptr() as usize, x.len(), i), true, &what, cs),
+                            2 => {
+                                let v = t.view(s, e);
+                                run_indexed(v.rows(), wr, &seq, |x, i| ok(x.as_ptr() as usize, x.len(), i), true, &what, cs)
+                            }
+                            _ => {
+                                let mut v = t.view_mut(s, e);
+                                run_indexed(v.rows_mut(), wr, &seq, |x, i| ok(x.as_ptr() as usize, x.len(), i), true, &what, cs)
+                            }
+                        }
+                    },
+                );
+            }
+        }
     }
 }
